@@ -6,6 +6,7 @@ package props
 import (
 	"encoding/json"
 	"fmt"
+	"net"
 	"os"
 	"path/filepath"
 	"sort"
@@ -46,6 +47,11 @@ type c15Cycle struct {
 	// RepeatMS > 0: the same signal is sent a second time this many milliseconds after the first (a supervisor
 	// signalling the group and the pid, an impatient operator): the shutdown in progress must complete all the same
 	RepeatMS int `json:"repeat_ms,omitempty"`
+	// BusyStart (cycles after the first): before this cycle's instance an instance is started while another process
+	// holds one of its UDP ports; it is sent the cycle's signal 1.2 s later if it is still there (a collector may
+	// fail at once or wait for the port). Whatever it does, it has learnt nothing, so it must not cost the templates
+	// acknowledged in earlier cycles
+	BusyStart bool `json:"busy_start,omitempty"`
 }
 
 type c15Case struct {
@@ -65,7 +71,7 @@ type c15Case struct {
 
 const c15Rule = "case = 1..3 stop/start cycles of the real collector binary (each instance with all CPUs or its affinity restricted to 1, 2, 4 or 8; 2..8 workers per protocol; in about 3 of 4 cases a generated subset of the four protocols is switched off by configuration, at least one of IPFIX / NetFlow v9 stays on; rawSocket sink and restful stats owned by the harness, per-instance pid and cache files (in a quarter of the cases given as relative names with a working directory other than the configuration's), in a quarter of the cases on a file system other than the temporary directory's) with 1..8 exporters on 127.0.0.x and ::1: " +
 	"per cycle new IPFIX / NetFlow v9 templates are announced (or all known ones redefined with a shorter definition, so that the next cache file is shorter than the one it replaces) and acknowledged (a data message using them reached the sink), sFlow/NetFlow v5 noise, a data burst, then SIGTERM or SIGINT after a drawn delay (in 5 of 8 cycles sent once, otherwise repeated 1..1100 ms later), " +
-	"optionally with traffic (data and announcements of fresh template ids) continuing through the shutdown window, or with single late datagrams 0.9..2.1 s after the signal following a quiet period; a final verification restart follows the last cycle; " +
+	"optionally with traffic (data and announcements of fresh template ids) continuing through the shutdown window, or with single late datagrams 0.9..2.1 s after the signal following a quiet period; in a quarter of the later cycles an instance is first started while one of its UDP ports is held by another process (and signalled 1.2 s later if still there); a final verification restart follows the last cycle; " +
 	"oracle per cycle = exit status 0 within 6 s of the signal, stderr free of panic / fatal error / concurrent map, both cache files exist, load and decode data for every acknowledged (exporter,id) to the reference decode, " +
 	"and after the restart data sent WITHOUT templates for every acknowledged (exporter,id) is published with the reference payload; " +
 	"non-trivial = a cycle with >= 1 acknowledged template and traffic in flight at the signal; distinct by hash"
@@ -138,6 +144,7 @@ func genC15(t *rapid.T) c15Case {
 		cy.Noise = rapid.IntRange(0, 20).Draw(t, "noise")
 		cy.CPUs = rapid.SampledFrom([]int{0, 0, 0, 0, 1, 2, 4, 8}).Draw(t, "cpus")
 		cy.RepeatMS = rapid.SampledFrom([]int{0, 0, 0, 1, 50, 300, 900, 1100}).Draw(t, "repeatms")
+		cy.BusyStart = i > 0 && rapid.IntRange(0, 3).Draw(t, "busystart") == 0
 		cy.Burst = rapid.SampledFrom([]int{0, 5, 50, 300}).Draw(t, "burst")
 		cy.Signal = rapid.SampledFrom([]string{"TERM", "TERM", "INT"}).Draw(t, "signal")
 		cy.DelayMS = rapid.SampledFrom([]int{0, 0, 1, 10, 100}).Draw(t, "delay")
@@ -278,6 +285,32 @@ func runC15(c *c15Case) (v verdict, sig string, err error) {
 		if !verification {
 			cpus = c.Cycles[ci].CPUs
 			v.label(cpus > 0, "restricted-cpu-set")
+		}
+		if !verification && c.Cycles[ci].BusyStart && len(acked) > 0 {
+			// an instance that cannot bind one of its ports (held by the harness), signalled while it is still around
+			busyProto := acked[0].Proto
+			port := map[string]int{"ipfix": ports.IPFIX, "nf9": ports.NF9}[busyProto]
+			if hold, herr := net.ListenPacket("udp", fmt.Sprintf(":%d", port)); herr == nil {
+				bp, berr := startVflow(dir, ports, e2eConfig{Workers: c.Workers, SinkAddr: sink.addr(), Disabled: disabled, Extra: c.Ambient, RelCache: c.RelCache, NoWait: true}, false)
+				if berr == nil && bp != nil {
+					if !bp.waitExit(1200 * time.Millisecond) {
+						sigNo := syscall.SIGTERM
+						if c.Cycles[ci].Signal == "INT" {
+							sigNo = syscall.SIGINT
+						}
+						bp.signal(sigNo)
+						if !bp.waitExit(8 * time.Second) {
+							bp.kill()
+						}
+					}
+					if bad := stderrProblem(bp.stderrText()); bad != "" {
+						hold.Close()
+						return v, "crash", fmt.Errorf("cycle %d: an instance started while its %s port was taken crashed: %s", ci, busyProto, bad)
+					}
+					v.label(true, "start-with-a-port-taken")
+				}
+				hold.Close()
+			}
 		}
 		proc, e := startVflow(dir, ports, e2eConfig{Workers: c.Workers, SinkAddr: sink.addr(), Disabled: disabled, Extra: c.Ambient, RelCache: c.RelCache, CPUs: cpus}, false)
 		if e != nil {
